@@ -65,6 +65,18 @@ class TLCResult:
         return res
 
 
+class LibraryDied(MachineryError):
+    """the driver process died with a Go runtime fatal error inside library code, reproducibly, on ONE scenario"""
+    def __init__(self, scenario, what):
+        MachineryError.__init__(self, what)
+        self.scenario, self.what = scenario, what
+
+
+FATAL_PAT = re.compile(r'fatal error: (runtime: out of memory|runtime: cannot allocate memory|out of memory|stack overflow|'
+                       r'concurrent map [\w ]+|all goroutines are asleep - deadlock!)|runtime: goroutine stack exceeds')
+LIB_FRAME = 'github.com/alibaba/sentinel-golang/'
+
+
 class Check:
     def __init__(self, pid, level='model_checking'):
         self.pid = pid
@@ -113,14 +125,68 @@ class Check:
         return out
 
     def run(self, args, timeout=600, cwd=None, env=None, ok_codes=(0,)):
+        def cap():
+            # a harness binary must never take the sandbox down with it (a change to the library may allocate without bound):
+            # 16 GB of address space for non-race drivers (the race detector needs terabytes of shadow address space)
+            import resource
+            resource.setrlimit(resource.RLIMIT_AS, (16 << 30, 16 << 30))
+        capped = str(args[0]).startswith(self.scratch) and not str(args[0]).endswith('-race')
         try:
             p = subprocess.run(args, cwd=cwd or self.scratch, env=env or goenv(), stdout=subprocess.PIPE,
-                               stderr=subprocess.PIPE, text=True, timeout=timeout)
+                               stderr=subprocess.PIPE, text=True, timeout=timeout, preexec_fn=cap if capped else None)
         except subprocess.TimeoutExpired:
             raise MachineryError('timeout: ' + ' '.join(args[:4]))
         if p.returncode not in ok_codes:
+            if capped and len(args) >= 3 and str(args[1]).endswith('.ndjson') and not getattr(self, '_attributing', False):
+                self.attribute_death(args, p, timeout, cwd, env)
             raise MachineryError('command failed rc=%d: %s\n%s' % (p.returncode, ' '.join(args[:6]), (p.stderr or p.stdout)[-3000:]))
         return p
+
+    def attribute_death(self, args, p, timeout, cwd, env):
+        """A driver died.  If it is a Go runtime fatal error (memory exhausted under the address-space cap, stack overflow,
+        concurrent map access, deadlock) with library frames on the stack, find ONE scenario that kills a fresh driver process
+        on its own, twice: then the real code does not complete the calls of that scenario - raised as LibraryDied (vlib.main
+        reports it as a violation with the scenario as replay file).  Anything else stays a machinery failure (exit 2)."""
+        err = p.stderr or ''
+        if not (FATAL_PAT.search(err) and LIB_FRAME in err):
+            return
+        try:
+            ops = read_ndjson(args[1])
+        except Exception:
+            return
+        scns = []
+        for o in ops:
+            if o.get('op') == 'new' or not scns:
+                scns.append([])
+            scns[-1].append(o)
+        if not scns or scns[0][0].get('op') != 'new':
+            return
+        self._attributing = True
+        try:
+            def dies(part, k):
+                sp = os.path.join(self.scratch, 'death%d.scn.ndjson' % k)
+                write_ndjson(sp, [o for sc in part for o in sc])
+                try:
+                    q = subprocess.run([args[0], sp, os.path.join(self.scratch, 'death%d.trace.ndjson' % k)] + list(args[3:]),
+                                       cwd=cwd or self.scratch, env=env or goenv(), stdout=subprocess.PIPE, stderr=subprocess.PIPE,
+                                       text=True, timeout=min(timeout, 300),
+                                       preexec_fn=lambda: __import__('resource').setrlimit(__import__('resource').RLIMIT_AS, (16 << 30, 16 << 30)))
+                except subprocess.TimeoutExpired:
+                    return None
+                return q.stderr if (q.returncode != 0 and FATAL_PAT.search(q.stderr or '') and LIB_FRAME in (q.stderr or '')) else None
+            part, k = scns, 0
+            while len(part) > 1:
+                k += 1
+                half = part[:len(part) // 2]
+                part = half if dies(half, k) else part[len(part) // 2:]
+            e1, e2 = dies(part, k + 1), dies(part, k + 2)
+            if e1 and e2:
+                m = FATAL_PAT.search(e2)
+                frames = [l.strip() for l in e2.splitlines() if LIB_FRAME in l][:4]
+                raise LibraryDied(part[0], 'the driver process dies with "%s" inside the library on this scenario alone (twice): %s' % (
+                    m.group(0), ' <- '.join(frames)))
+        finally:
+            self._attributing = False
 
     def tlc(self, module, cfg=None, workers=None, timeout=900, args=(), files=None, props=None, heap='6g', count=True,
             cfg_text=None):
@@ -279,6 +345,10 @@ def main(pid, fn, level='model_checking'):
     c.tier = 'thorough' if a.tier == 'thorough' else 'quick'
     try:
         fn(c, c.tier, a.replay)
+    except LibraryDied as e:
+        rp = c.save_replay('died-tr%s.ndjson' % e.scenario[0].get('tr', 0), e.scenario)
+        c.violation('the real code does not complete the calls of the scenario: ' + e.what, rp)
+        c.finish()
     except MachineryError as e:
         print('MACHINERY-ERROR (%s): %s' % (pid, e))
         c.cleanup()
